@@ -1,5 +1,5 @@
 #!/bin/sh
 # Build the static part of the Coq development and everything regenerated from /repo's current tree.
 cd "$(dirname "$0")" || exit 2
-export PYTHONPATH="/verif:${PV_REPO:-/repo}" PYTHONHASHSEED=0 PYTHONDONTWRITEBYTECODE=1
+export PYTHONPATH="$(pwd):${PV_REPO:-/repo}" PYTHONHASHSEED=0 PYTHONDONTWRITEBYTECODE=1
 exec /venv/bin/python -m pv.setup
